@@ -107,6 +107,23 @@ def _dtypes(cplx):
     return ("complex128", "complex64") if cplx else ("float64", "float32")
 
 
+def _plan(ci, cplx, thorough, formats=FORMATS):
+    """(format, dtype) combinations exercised for case number ci: all of them in the thorough tier; in the
+    quick tier dense plus two sparse formats, rotating with ci so that every combination recurs often."""
+    dts = _dtypes(cplx)
+    if thorough:
+        return [(f, d) for d in dts for f in formats]
+    sps = [f for f in formats if f != "dense"]
+    out = []
+    if "dense" in formats:
+        out += [("dense", dts[ci % 2])]
+        if ci % 3 == 0:
+            out += [("dense", dts[(ci + 1) % 2])]
+    if sps:
+        out += [(sps[ci % len(sps)], dts[(ci // 2) % 2]), (sps[(ci + 1 + ci // 4) % len(sps)], dts[(ci // 2 + 1) % 2])]
+    return list(dict.fromkeys(out))
+
+
 def _observe(variants):
     """variants: [(label, dtype, thunk[, rejectable])].  Runs every thunk, snaps the result and groups the
     variants by identical observation: returns [(labels, got, exc, rejectable)].  `rejectable` marks a
@@ -150,10 +167,10 @@ def _kron_variants(ops, own, cplx, ci, thorough):
 
     out = []
     kw = {} if own is None else {"ownership": tuple(own)}
-    for dt in _dtypes(cplx):
-        for fmt in FORMATS:
-            vo = [_cast(o, fmt, dt, qarray=(ci % 2 == 0)) for o in ops]
-            out.append(("%s/%s" % (fmt, dt), dt, lambda vo=vo: qu.kron(*vo, **kw), own is not None and fmt == "bsr"))
+    for fmt, dt in _plan(ci, cplx, thorough):
+        vo = [_cast(o, fmt, dt, qarray=(ci % 2 == 0)) for o in ops]
+        out.append(("%s/%s" % (fmt, dt), dt, lambda vo=vo: qu.kron(*vo, **kw), own is not None and fmt == "bsr"))
+    for dt in (_dtypes(cplx) if thorough else _dtypes(cplx)[ci % 2:][:1]):
         # dense and sparse factors mixed
         mf = [("dense", "csr", "coo", "csc", "bsr")[(k + ci) % 5] for k in range(len(ops))]
         vm = [_cast(o, f, dt) for f, o in zip(mf, ops)]
@@ -165,9 +182,11 @@ def _kron_variants(ops, own, cplx, ci, thorough):
     st = SPARSE[(ci // 4) % 4]
     vs = [_cast(o, fmt, dt) for o in ops]
     rj = own is not None and fmt == "bsr"
-    out.append(("%s/stype=%s" % (fmt, st), dt, lambda: qu.kron(*vs, stype=st, **kw), rj))
-    out.append(("%s/coo_build" % fmt, dt, lambda: qu.kron(*vs, coo_build=True, **kw), rj))
-    if thorough or ci % 3 == 0:
+    if thorough or ci % 2 == 0:
+        out.append(("%s/stype=%s" % (fmt, st), dt, lambda: qu.kron(*vs, stype=st, **kw), rj))
+    if thorough or ci % 2 == 1:
+        out.append(("%s/coo_build" % fmt, dt, lambda: qu.kron(*vs, coo_build=True, **kw), rj))
+    if thorough or ci % 5 == 0:
         out.append(("%s/coo_build/stype=%s" % (fmt, st), dt, lambda: qu.kron(*vs, coo_build=True, stype=st, **kw), rj))
         vd = [_cast(o, "dense", dt) for o in ops]
         out.append(("dense/parallel", dt, lambda: qu.kron(*vd, parallel=True, **kw)))
@@ -189,7 +208,7 @@ def replay_kron_cases(rng, cases, thorough, ikron_every=1):
         except Exception:  # noqa
             mreal = [[-1, -1]]
         for cplx in (True, False):
-            if not cplx and not thorough and ci % 2:
+            if not cplx and not thorough and ci % 4:
                 continue
             # factors: rows = the subsystem dimension, 1..2 columns (kets, bras when d = 1, operators)
             ops = [_imat(rng, d, 1 + (k + ci) % 2, cplx) for k, d in enumerate(dims)]
@@ -214,10 +233,10 @@ def replay_kron_cases(rng, cases, thorough, ikron_every=1):
         base = {"ev": "ikron", "tid": 0, "ops": [_mat(o if cplx else o.real) for o in ops], "dims": dims, "inds": inds,
                 "own": [ri, rf], "src": "tlc"}
         var = []
-        for dt in _dtypes(cplx):
-            for fmt in FORMATS:
-                vo = [_cast(o, fmt, dt) for o in ops]
-                var.append(("%s/%s" % (fmt, dt), dt, lambda vo=vo: qu.ikron(vo, dims, inds, ownership=(ri, rf)), fmt == "bsr"))
+        for fmt, dt in _plan(ci, cplx, thorough):
+            vo = [_cast(o, fmt, dt) for o in ops]
+            var.append(("%s/%s" % (fmt, dt), dt, lambda vo=vo: qu.ikron(vo, dims, inds, ownership=(ri, rf)), fmt == "bsr"))
+        for dt in (_dtypes(cplx) if thorough else _dtypes(cplx)[:1]):
             vd = [_cast(o, "dense", dt) for o in ops]
             var.append(("dense/sparse=True/%s" % dt, dt, lambda vd=vd: qu.ikron(vd, dims, inds, sparse=True, ownership=(ri, rf)), True))
         dt = _dtypes(cplx)[0]
@@ -249,9 +268,8 @@ def replay_sel_case(rng, recs, dims, sel, ci, src, thorough):
     tag = {"tid": 0, "src": src}
 
     def cases_of(x, formats):
-        for dt in dts:
-            for fmt in formats:
-                yield fmt, dt, _cast(x, fmt, dt, qarray=(ci % 2 == 1))
+        for fmt, dt in _plan(ci, cplx, thorough, formats):
+            yield fmt, dt, _cast(x, fmt, dt, qarray=(ci % 2 == 1))
 
     # ---- ikron: one operator per index, cycled operators, one operator overlaid on a run
     if sel:
@@ -264,11 +282,11 @@ def replay_sel_case(rng, recs, dims, sel, ci, src, thorough):
         for pname, ops in plans:
             base = dict(tag, ev="ikron", ops=[_mat(o if cplx else o.real) for o in ops], dims=dims, inds=sel, own=[], plan=pname)
             var = []
-            for dt in dts:
-                for fmt in FORMATS:
-                    vo = [_cast(o, fmt, dt) for o in ops]
-                    arg = vo[0] if (len(vo) == 1 and ci % 2) else vo
-                    var.append(("%s/%s" % (fmt, dt), dt, lambda arg=arg: qu.ikron(arg, dims, sel)))
+            for fmt, dt in _plan(ci, cplx, thorough):
+                vo = [_cast(o, fmt, dt) for o in ops]
+                arg = vo[0] if (len(vo) == 1 and ci % 2) else vo
+                var.append(("%s/%s" % (fmt, dt), dt, lambda arg=arg: qu.ikron(arg, dims, sel)))
+            for dt in (dts if thorough else dts[ci % 2:][:1]):
                 vd = [_cast(o, "dense", dt) for o in ops]
                 var.append(("dense/sparse=True/%s" % dt, dt, lambda vd=vd: qu.ikron(vd, dims, sel, sparse=True)))
                 st = SPARSE[ci % 4]
@@ -323,7 +341,8 @@ def replay_sel_case(rng, recs, dims, sel, ci, src, thorough):
     degenerate = (1 in dims) or (len(sel) == 0)
     lose = [i for i in range(n) if i not in sel]
     for kind, x in (("dop", rho), ("ket", psi)):
-        base = dict(tag, ev="ptr", x=_mat(x if cplx else x.real), dims=dims, keep=sel, kind=kind, degenerate=bool(degenerate))
+        base = dict(tag, ev="ptr", x=_mat(x if cplx else x.real), dims=dims, keep=sel, kind=kind, has1=bool(1 in dims),
+                    nokeep=bool(len(sel) == 0))
         var = []
         for fmt, dt, v in cases_of(x, ("dense",)):
             var.append(("qu.ptr/%s" % dt, dt, lambda v=v: qu.ptr(v, dims, sel)))
@@ -521,8 +540,8 @@ def observe_hams(rng, thorough):
             continue
         recs.append(r0)
         allr = [(ri, rf) for ri in range(D) for rf in range(ri + 1, D + 1)]
-        if len(allr) > (140 if not thorough else 600):
-            idx = rng.choice(len(allr), size=(60 if not thorough else 300), replace=False)
+        if len(allr) > (40 if not thorough else 600):
+            idx = rng.choice(len(allr), size=(14 if not thorough else 300), replace=False)
             ranges = sorted({allr[int(i)] for i in idx} | {(0, D), (0, 1), (D - 1, D), (D // 2, D), (1, D - 1), (D // 2 - 1, D // 2 + 1)})
         else:
             ranges = allr
@@ -732,8 +751,8 @@ def run(ctx):
 
     # 4. S->C: replay the TLC cases into quimb
     if quick:
-        # every dims list and every range is replayed through kron; ikron on every second case
-        krecs = replay_kron_cases(rng, kcases, False, ikron_every=2)
+        # every dims list and every range is replayed through kron; ikron on every third case
+        krecs = replay_kron_cases(rng, kcases, False, ikron_every=3)
     else:
         krecs = replay_kron_cases(rng, kcases, True, ikron_every=1)
     ctx.sample({"kron-ownership": {k: krecs[len(krecs) // 2][k] for k in ("ops", "own", "got", "var", "exc")}})
@@ -764,6 +783,8 @@ def run(ctx):
             if (tuple(dims), tuple(sel)) in seen:
                 continue
             ci += 1
+            if quick and (ci + ctx.seed) % 2:
+                continue  # quick tier: every second case of the extra scope (which ones depends on the seed)
             ne += 1
             replay_sel_case(rng, srecs, dims, sel, ci, "enum", thorough)
     for ev in ("ikron", "pkron", "permute", "ptr", "adjoint", "ptrans"):
